@@ -177,7 +177,7 @@ def farzone(args):
 
 def jobs(chk, tier):
     for r, g, cfg in T.records(chk, tier, INVS):
-        if not r.get('reject'):
+        if not r.get('reject') and not any(o.get('kind') == 'A' for o in r['input']):
             yield (r, g, C.seed())
 
 
